@@ -112,8 +112,28 @@ def solve_once(pcs, axs, extra, f, ms, seed, fresh=False):
     s.add(z3.Not(tr(f)))
     r = s.check()
     v = 'unsat' if r == z3.unsat else ('sat' if r == z3.sat else 'unknown')
+    if not fresh and v == 'unsat':
+        try:
+            st = s.statistics()
+            cur = st.get_key_value('rlimit count') if 'rlimit count' in st.keys() else None
+            if cur is not None:
+                used = cur - RL_LAST[0]
+                RL_LAST[0] = cur
+                ROUND_STATS['max rlimit of a proved query'] = max(ROUND_STATS.get('max rlimit of a proved query', 0), used)
+        except Exception:  # noqa: BLE001
+            pass
+    elif not fresh:
+        try:
+            st = s.statistics()
+            if 'rlimit count' in st.keys():
+                RL_LAST[0] = st.get_key_value('rlimit count')
+        except Exception:  # noqa: BLE001
+            pass
     del s
     return v
+
+
+RL_LAST = [0]
 
 
 def portfolio(pcs, axs, extra, f, timeout_ms, effort=2):
@@ -126,9 +146,14 @@ def portfolio(pcs, axs, extra, f, timeout_ms, effort=2):
         rounds = [(min(1500, timeout_ms), (0, 1), False)]
     elif effort <= 0:
         rounds = [(min(800, timeout_ms), (0,), False)]
+    if FAILED_MS[0] > FAILED_CAP_MS:
+        rounds = [(min(1500, timeout_ms), (0,), False)]           # this task has already burnt a lot of budget on steps that were not decided: cheap attempts only (deterministic:
+        #                               the counter adds nominal budgets of undecided attempts, never wall-clock time)
     for ri, (ms, seeds, fresh) in enumerate(rounds):
         for seed in seeds:
             last = solve_once(pcs, axs, extra, f, ms, seed, fresh)
+            if last == 'unknown':
+                FAILED_MS[0] += ms
             if last in ('unsat', 'sat'):
                 k_ = 'first attempt' if (ri == 0 and seed == seeds[0]) else ('other seed, small budget' if ri == 0 else ('full budget' if ri == 1 else 'fresh context, 3x budget'))
                 ROUND_STATS[k_] = ROUND_STATS.get(k_, 0) + 1
@@ -137,6 +162,7 @@ def portfolio(pcs, axs, extra, f, timeout_ms, effort=2):
     return last
 
 
+FAILED_MS, FAILED_CAP_MS = [0], 30000
 ROUND_STATS = {}       # how much of the deterministic budget ladder the queries needed (margin indicator, reported in the evidence)
 
 
@@ -344,6 +370,7 @@ def run_spec(spec, tier, live=(), shard=(0, 1)):
     res['wall'] = time.time() - t0
     res['second'] = dict(SECOND_STATS)
     res['rounds'] = dict(ROUND_STATS)
+    res['rounds']['max undecided nominal ms in one task'] = FAILED_MS[0]
     return res
 
 
@@ -1438,7 +1465,7 @@ def record_spec(chk, spec, msgs, findings, conf, falsify_jobs):
     ragg = chk.extra.setdefault('solver_budget_ladder', {})
     for res in ress:
         for k2, v2 in (res.get('rounds') or {}).items():
-            ragg[k2] = ragg.get(k2, 0) + v2
+            ragg[k2] = max(ragg.get(k2, 0), v2) if k2.startswith('max ') else ragg.get(k2, 0) + v2
     libs = sorted({l for res in ress for l in res['lib']} | set(GENERIC_LIBS))
     bad_libs = [l for l in libs if not (conf.get(l) or {}).get('ok')]
     groups = {}
